@@ -271,6 +271,30 @@ def r6_attach(rep, facts):
     rep.check(R, 'value|with_span', ws and ar, '.with_span().map(apply_raw)', 'value no longer passes its with_span() range to apply_raw', facts.loc(b))
 
 
+def r6b_header_span(rep, facts):
+    R = rep.rule('C14/R6b', 'a `[table]` / `[[array]]` header is spanned as the bracketed header only: in std_table and array_table `with_span()` is applied to '
+                 'the delimited(open, key, close) parser, not to anything that also reads the rest of the line (trailing whitespace, comment, line end)', floor=2)
+    from . import parsemodel as pm
+    g = pm.model(facts)
+    for fn in ('table::std_table', 'table::array_table'):
+        try:
+            t = pm.term(g, fn)
+        except AnalysisIncomplete as e:
+            rep.incomplete(R, fn, str(e))
+            continue
+        spans = [x for x in g.subterms(t) if x['op'] == 'map' and x['kind'] in ('with_span', 'span')]
+        b = facts.body(pm.P + fn)
+        ok = len(spans) == 1
+        how = f'{len(spans)} with_span() in the header parser'
+        if ok:
+            inner = spans[0]['p']
+            reads_line = [f for f in pm.trans_mentions(g, inner) | set(g.mentions(inner)) if last_seg(f) in ('line_trailing', 'line_ending', 'comment', 'newline')]
+            lits = [bytes(x['bytes']) for x in g.subterms(inner) if x['op'] == 'lit']
+            ok = not reads_line and any(l.startswith(b'[') for l in lits) and any(l.startswith(b']') for l in lits)
+            how = 'with_span() over `[` key `]`' if ok else f'with_span() also covers {sorted(last_seg(f) for f in reads_line) or "something else than the brackets"}'
+        rep.check(R, fn, ok, how, f'`{fn}`: {how}: the span of a table without own values then includes the trailing comment and the line end', facts.loc(b))
+
+
 def rules(rep, facts):
     feats = set(facts.crates.get('toml_edit', {}).get('features', []))
     if 'toml_edit' not in facts.crates or 'parse' not in feats:
@@ -279,12 +303,16 @@ def rules(rep, facts):
     r1_provenance(rep, facts)
     r2_despan(rep, facts)
     r6_attach(rep, facts)
+    r6b_header_span(rep, facts)
     if 'serde' in feats and 'serde_spanned' in facts.crates:
         r3_bridge(rep, facts)
         r4_uniform(rep, facts)
         from .rules_c15 import r1_span_attached
         r1_span_attached(rep, facts)
         rep.relabel('C15/R1', 'C14/R7', 'error locations delivered through serde are the innermost value\'s span: ')
+        from .rules_c15 import r2c_source_kept
+        r2c_source_kept(rep, facts)
+        rep.relabel('C15/R2c', 'C14/R8', 'spans reach serde through every text entry point (Spanned<T> decodes the same whichever entry point is used): ')
 
 
 def _witnesses(rep):
